@@ -316,6 +316,14 @@ where T::Value: PartialEq + Debug + Clone {
     }
     queries += 1;
 
+    let timing = std::env::var("C15_TIMING").is_ok();
+    let t0 = std::time::Instant::now();
+    let lap = |what: &str| {
+        if timing {
+            eprintln!("  [{}] {what} at {:.2}s", T::NAME, t0.elapsed().as_secs_f64());
+        }
+    };
+    lap("built+streamed");
     // point lookups
     let nprobe = if n > 3000 { 60 } else { 40 };
     let probes = gen_probes(rng, &keys, &edges, nprobe);
@@ -364,6 +372,7 @@ where T::Value: PartialEq + Debug + Clone {
         }
     }
 
+    lap("points");
     // ordinal -> key / value
     let mut ords: Vec<u64> = vec![0, n as u64, n as u64 + 1, u64::MAX, (n as u64).saturating_sub(1)];
     for &e in edges.iter().take(400) {
@@ -421,6 +430,7 @@ where T::Value: PartialEq + Debug + Clone {
         }
     }
 
+    lap("ords");
     // ranges
     let nrange = if n > 3000 { 24 } else { 36 };
     for _ in 0..nrange {
@@ -488,6 +498,7 @@ where T::Value: PartialEq + Debug + Clone {
         }
     }
 
+    lap("ranges");
     // prefix ranges
     for _ in 0..10 {
         queries += 1;
@@ -519,8 +530,10 @@ where T::Value: PartialEq + Debug + Clone {
         }
     }
 
+    lap("prefix");
     // automaton searches (the automaton is ours; expectation = automaton run over every key)
-    let nauto = if n > 3000 { 8 } else { 14 };
+    let total_key_bytes: usize = keys.iter().map(|k| k.len()).sum();
+    let nauto = if total_key_bytes > 300_000 { 4 } else if n > 3000 { 8 } else { 14 };
     let autos = gen_automata(rng, &keys, nauto);
     for a in &autos {
         queries += 1;
@@ -571,6 +584,7 @@ where T::Value: PartialEq + Debug + Clone {
         }
     }
     rep.count("queries", queries);
+    lap("searches");
 
     if nblocks >= 2 {
         rep.nontrivial(format!("sst|{}|{}|bl{}|n{}|b{}", T::NAME, class, bl_label, n, nblocks));
